@@ -53,6 +53,10 @@ def run(ctx):
     depth = 6 if ctx.quick else 10
     reqs = [{"op": "c09_bfs", "limits": [[n, "%ds" % p] for n, p in s], "depth": depth, "gaps_ms": GAPS,
              "max_states": 30000 if ctx.quick else 150000} for s in sets]
+    # two limits over the same period (written identically or differently): both apply, i.e. the stricter one
+    for raw in ([[1, "2s"], [3, "2s"]], [[3, "2s"], [1, "2s"]], [[2, "60s"], [5, "1m"]], [[5, "1m"], [2, "60s"]], [[1, "4s"], [3, "2s2s"]], [[2, "1s"], [2, "1s"]]):
+        reqs.append({"op": "c09_bfs", "limits": raw, "depth": depth, "gaps_ms": GAPS, "max_states": 30000 if ctx.quick else 150000})
+        sets.append(raw)
     outs = ctx.pool.map(reqs, 3000.0)
     fix = 0
     capped = 0
